@@ -73,6 +73,25 @@ mutual
     | t :: ts => kinds t ++ kindsList ts
 end
 
+mutual
+  /-- All nodes of the tree (preorder). -/
+  def infos : Tree → List Info
+    | node i cs => i :: infosList cs
+  def infosList : List Tree → List Info
+    | [] => []
+    | t :: ts => infos t ++ infosList ts
+end
+
+mutual
+  /-- No node is (the same object as) one of its proper descendants — automatic for Python objects in a
+  finite tree; the hypothesis under which `skipping[i] is node` identifies the node being skipped. -/
+  def noSelfNest : Tree → Bool
+    | node i cs => !(infosList cs).contains i && noSelfNestList cs
+  def noSelfNestList : List Tree → Bool
+    | [] => true
+    | t :: ts => noSelfNest t && noSelfNestList ts
+end
+
 /-- Simultaneous induction over a tree and its lists of children. -/
 theorem induct {P : Tree → Prop} {Q : List Tree → Prop}
     (hnode : ∀ i cs, Q cs → P (node i cs)) (hnil : Q [])
@@ -183,6 +202,28 @@ structure TIRow where
 abbrev TITable := List TIRow
 
 def TITable.row (tbl : TITable) (k : String) : Option TIRow := tbl.find? (fun r => r.kind == k)
+
+def TITable.setsOf (tbl : TITable) (k : String) : List String :=
+  match tbl.row k with
+  | some r => r.sets
+  | none => []
+
+def TITable.resetsOf (tbl : TITable) (k : String) : List String :=
+  match tbl.row k with
+  | some r => r.resets
+  | none => []
+
+mutual
+  /-- No node whose kind assigns a TypeInfo register has a proper descendant whose kind resets that register
+  (the grammar guarantees it: no directive inside a directive, no argument inside an argument, …). -/
+  def Tree.noRegNest (tbl : TITable) : Tree → Bool
+    | .node i cs =>
+      (tbl.setsOf i.kind).all (fun r => (Tree.kindsList cs).all (fun k => !(tbl.resetsOf k).contains r))
+        && Tree.noRegNestList tbl cs
+  def Tree.noRegNestList (tbl : TITable) : List Tree → Bool
+    | [] => true
+    | t :: ts => Tree.noRegNest tbl t && Tree.noRegNestList tbl ts
+end
 
 /-- The abstract lookups (`schema.get_field`, `type_from_ast`, `get_named_type`, …): the value an
 `enter_*` method pushes on a stack / stores in a register is a function of the node and of the
